@@ -7,7 +7,13 @@ File store: model = `step` on the KV model; SPEC = history oracle (`lastWrite`, 
 KV/list modelling. Locks: the harness logs every KV lease call the storage instances make (with the wall-clock
 window around it) and the Lock/Unlock markers; the lease model is replayed with the observed times
 (token − ttl is the exact clock reading of kv/memory), SPEC = "nobody obtains the lock while another instance
-holds it with an unexpired lease", judged from observed tokens only.
+holds it": an instance holds the lock from its `locked … => ok` to its `unlocking`; another instance's `Lock`
+returning in between is a violation when the holder's lease is unexpired (observed tokens only) AND ALSO when that
+lease has run out although the KV never failed one of the holder's renewals — a live holder renews (ticker every
+ttl/4, explicit `RenewLockLease`), so its lease does not expire on its own (`held_until_unlock_or_expiry`); only an
+injected KV failure (recorded per instance) excuses the loss.
+Explicit renewals: `renewing i key dur` … `renewedlock i key dur => ok|notholder|expired|err` bracket a
+`RenewLockLease(key, dur)` call; the KV renewal it makes is replayed as the model's `renewLock i dur ttl`.
 -/
 namespace Specter.C49
 open Specter.Util
@@ -18,6 +24,10 @@ structure OEntry where
   holding : Bool := false      -- between `locked … => ok` and `unlocking`
   lastTok : Nat := 0           -- last token this instance obtained from the KV (acquire/renew)
   rel : Option String := none  -- result of the KV release since the last `unlocked`
+  fault : Bool := false        -- the KV failed a renewal of this instance since it locked (injected by the wrapper)
+  cfgTtl : Nat := 0            -- lease TTL this instance acquires with (its configured `LeaseTTL`), 0 = not seen yet
+  expl : Option Nat := none    -- a `RenewLockLease(key, dur)` call is in progress (`renewing` seen): its `dur`
+  explRes : Option String := none  -- what the KV renewal made by that call returned
 
 structure DState where
   kv : Kv := []
@@ -127,7 +137,7 @@ def dstep (d : DState) (toks : List String) (rhs : String) : DState × Verdict :
           else
             let (s', out) := lstep (tickTo s now) (.lockTry i ttl)
             let e := orcOf d key i
-            let d' := setOrc (setLock d key s') { e with lastTok := tok }
+            let d' := setOrc (setLock d key s') { e with lastTok := tok, cfgTtl := ttl }
             if out = .acquired tok then (d', .ok) else (d', .diff (renderL out))
       | none =>
         -- refused: admissible iff the model refuses at the start of the window (conflict is monotone in time)
@@ -138,30 +148,41 @@ def dstep (d : DState) (toks : List String) (rhs : String) : DState × Verdict :
     match i.toNat?, ttl.toNat?, prev.toNat?, tb.toNat?, ta.toNat? with
     | some i, some ttl, some prev, some tb, some ta =>
       let s := lockOf d key
-      if rhs = "injected" then (d, .ok)     -- fault injected by the wrapper before the KV was called
-      else if s.holder i ≠ some prev then (d, .diff s!"model holder token {repr (s.holder i)} ≠ {prev}")
+      let e := orcOf d key i
+      -- the result an explicit `RenewLockLease` in progress will report
+      let noted (r : String) : OEntry := { e with expl := none, explRes := if e.expl.isSome then some r else e.explRes }
+      if rhs = "injected" then    -- fault injected by the wrapper before the KV was called: the KV failed this holder
+        (setOrc d { noted "err" with fault := true }, .ok)
+      else if s.holder i ≠ some prev then
+        (setOrc d (noted (if (parseTok rhs).isSome then "ok" else rhs)), .diff s!"model holder token {repr (s.holder i)} ≠ {prev}")
       else
+        -- ticker renewal, or the renewal made by `RenewLockLease(key, dur)`: both ask for the CONFIGURED ttl
+        let ev : Ev := match e.expl with | some dur => .renewLock i dur ttl | none => .renew i ttl
+        let ttlOk := e.cfgTtl = 0 ∨ ttl = e.cfgTtl
+        let fin (v : Verdict) : Verdict :=
+          if ttlOk then v else .diff s!"the storage renews with its configured lease TTL {e.cfgTtl}, the KV was asked for {ttl}"
         match parseTok rhs with
         | some tok =>
           match durationGuard ttl with
-          | none => (d, .diff "invalidttl")
+          | none => (setOrc d (noted "ok"), .diff "invalidttl")
           | some td =>
             let now2 := tok - td
-            if tok < td ∨ now2 < tb ∨ ta < now2 then (d, .diff s!"token {tok} is not clock+ttl within the call window")
+            if tok < td ∨ now2 < tb ∨ ta < now2 then
+              (setOrc d (noted "ok"), .diff s!"token {tok} is not clock+ttl within the call window")
             else
               -- Renew reads the clock twice (check, then new token): check at the window start, token at now2;
               -- two successive model renewals are exactly that
-              let (s1, o1) := lstep (tickTo s tb) (.renew i ttl)
+              let (s1, o1) := lstep (tickTo s tb) ev
               match o1 with
               | .renewed _ =>
-                let (s2, o2) := lstep (tickTo s1 now2) (.renew i ttl)
-                let e := orcOf d key i
-                let d' := setOrc (setLock d key s2) { e with lastTok := tok }
-                if o2 = .renewed tok then (d', .ok) else (d', .diff (renderL o2))
-              | o => (setLock d key s1, .diff (renderL o))
+                let (s2, o2) := lstep (tickTo s1 now2) ev
+                let d' := setOrc (setLock d key s2) { noted "ok" with lastTok := tok }
+                if o2 = .renewed tok then (d', fin .ok) else (d', .diff (renderL o2))
+              | o => (setOrc (setLock d key s1) { noted "ok" with lastTok := tok }, .diff (renderL o))
         | none =>
-          let (s', out) := lstep (tickTo s ta) (.renew i ttl)
-          if renderL out = rhs then (setLock d key s', .ok) else (setLock d key s', .diff (renderL out))
+          let (s', out) := lstep (tickTo s ta) ev
+          let d' := setOrc (setLock d key s') (noted rhs)
+          if renderL out = rhs then (d', fin .ok) else (d', .diff (renderL out))
     | _, _, _, _, _ => (d, .bad "kvrenew args")
   | ["kvrel", i, key, tok, tb, _ta] =>
     match i.toNat?, tok.toNat?, tb.toNat? with
@@ -182,17 +203,39 @@ def dstep (d : DState) (toks : List String) (rhs : String) : DState × Verdict :
       else
         -- SPEC (from the statement, observed tokens only): nobody else holds it with an unexpired lease
         let clash := d.orc.find? (fun e => e.key == key && e.inst != j && e.holding && e.lastTok > t)
+        -- … nor while somebody holds it (locked, not unlocking) whose lease ran out although the KV never failed
+        -- one of its renewals: a live holder keeps its lease (ticker / RenewLockLease), so nothing released the lock
+        let lost := d.orc.find? (fun e => e.key == key && e.inst != j && e.holding && !e.fault)
         let e := orcOf d key j
         let d' := setOrc d { e with holding := true }
-        match clash with
-        | some c => (d', .spec s!"instance {j} obtained the lock at {t} while instance {c.inst} holds it with lease until {c.lastTok}")
-        | none =>
+        match clash, lost with
+        | some c, _ => (d', .spec s!"instance {j} obtained the lock at {t} while instance {c.inst} holds it with lease until {c.lastTok}")
+        | none, some c => (d', .spec s!"instance {j} obtained the lock at {t} while instance {c.inst} still holds it (locked, never unlocked, no KV failure): its lease was not kept alive and ran out at {c.lastTok}")
+        | none, none =>
           if ((lockOf d key).holder j).isNone then (d', .diff "model: not a holder") else (d', .ok)
     | _, _ => (d, .bad "locked args")
   | ["unlocking", i, key, _t] =>
     match i.toNat? with
-    | some i => let e := orcOf d key i; (setOrc d { e with holding := false, rel := none }, .ok)
+    | some i => let e := orcOf d key i; (setOrc d { e with holding := false, rel := none, fault := false }, .ok)
     | none => (d, .bad "unlocking args")
+  -- ---- explicit `RenewLockLease(key, dur)` ----
+  | ["renewing", i, key, dur, _t] =>
+    match i.toNat?, dur.toNat? with
+    | some i, some dur => let e := orcOf d key i; (setOrc d { e with expl := some dur, explRes := none }, .ok)
+    | _, _ => (d, .bad "renewing args")
+  | ["renewedlock", i, key, dur, t] =>
+    match i.toNat?, dur.toNat?, t.toNat? with
+    | some i, some dur, some t =>
+      let e := orcOf d key i
+      let d1 := setOrc d { e with expl := none, explRes := none }
+      match e.explRes with
+      | some r => if r = rhs then (d1, .ok) else (d1, .diff r)    -- the error of the KV renewal, nil when it succeeded
+      | none =>
+        -- no KV call was made: only for an instance that is not a holder
+        let (_, out) := lstep (tickTo (lockOf d key) t) (.renewLock i dur e.cfgTtl)
+        if out = .notHolder then (if rhs = "notholder" then (d1, .ok) else (d1, .diff "notholder"))
+        else (d1, .diff "model: RenewLockLease of a holder renews the lease in the KV")
+    | _, _, _ => (d, .bad "renewedlock args")
   | ["unlocked", i, key, t] =>
     match i.toNat?, t.toNat? with
     | some i, some t =>
